@@ -410,11 +410,21 @@ def check_locparse(res, case):
     res.label("locparse")
 
 
+def iter_items_of(feature):
+    from ..program import iter_items
+    return list(iter_items(feature))
+
+
 def check_name(res, case):
     prog = copy.deepcopy(case["program"])
     normalize(prog)
     names = []
-    insts = [i for f in prog["features"] for i in scenario_instances(f)]
+    insts = []
+    feat_of = {}
+    for f in prog["features"]:
+        for i in scenario_instances(f):
+            insts.append(i)
+            feat_of[id(i)] = f
     for kind, a, b in case["patterns"]:
         if not insts:
             break
@@ -432,8 +442,17 @@ def check_name(res, case):
     if not names:
         res.label("name:none")
         return
-    prog["cfg"] = {"names": names}
+    prog["cfg"] = dict(case.get("tagcfg") or {}, names=names)
     suffix = u" [chrome, attempt 1]"
+    if case.get("schema"):
+        # another name schema for outline rows (configuration file): the rows are selected by the names they GET
+        prog["cfg"]["schema"] = u"{name} [{examples.name} row {row.index}]"
+        for i in insts:
+            if i["outline"] is not None:
+                i["name"] = u"%s [%s row %d]" % (i["name"].split(u" -- @")[0], i["ex"].get("name", u""), i["ri"])
+        res.label("name:other-annotation-schema")
+    if case.get("tagcfg"):
+        res.label("name:with-tag-selection")
 
     def decorate(kind, name, context, arg):
         # the before_scenario hook decorates the scenario's name for the reports: the selection was made on
@@ -444,7 +463,10 @@ def check_name(res, case):
     if run.escaped is not None:
         res.fail("C10.name.escape", "run() raised %r" % (run.escaped,))
         return
-    want = set(i["name"] for i in insts if any(re.search(p, i["name"]) for p in names))
+    from .. import refmodel, tagref
+    ast = refmodel.tag_ast(prog["cfg"])
+    want = set(i["name"] for i in insts if any(re.search(p, i["name"]) for p in names)
+               and tagref.evaluate(ast, refmodel.effective_tags(feat_of[id(i)], i)))
     ran = set((n[:-len(suffix)] if n and n.endswith(suffix) else n) for n, _u in run.calls)
     if case.get("decorate"):
         res.label("name:hook-decorates-the-name")
@@ -564,11 +586,13 @@ def locparse_case():
 
 
 def name_case():
-    return st.builds(lambda p, pats, deco: {"kind": "name", "program": p, "patterns": pats, "decorate": deco},
+    return st.builds(lambda p, pats, deco, schema, tagcfg: {"kind": "name", "program": p, "patterns": pats, "decorate": deco,
+                                                            "schema": schema, "tagcfg": tagcfg},
                      doc_program(nfeatures=2),
                      st.lists(st.tuples(st.sampled_from(["exact", "sub", "prefix", "class"]), st.integers(0, 30),
                                         st.integers(0, 30)).map(list), min_size=1, max_size=3),
-                     st.sampled_from([False, False, True]))
+                     st.sampled_from([False, False, True]), st.sampled_from([False, False, True]),
+                     st.one_of(st.just({}), st.just({}), gen.tagcfg_st(p_none=0.0)))
 
 
 def explore(rec):
@@ -584,7 +608,8 @@ def required_labels(tier):
             "noise", "all-pairs(doc<=12)", "run-sample", "via-listfile:subdir", "via-listfile:cwd", "via-args",
             "listfile:indented-entry", "files:2", "locparse", "name", "name:row-selected", "scenario-names-not-unique",
             "via-args:glob-characters-in-file-name", "run-sample:auto-retry", "list:file-named-again-later", "via-args:directory-next-to-locations",
-            "examples-section-without-table", "name:hook-decorates-the-name", "listfile:read-rewritten-read-again", "via-configuration-file-paths"]
+            "examples-section-without-table", "name:hook-decorates-the-name", "listfile:read-rewritten-read-again", "via-configuration-file-paths", "name:other-annotation-schema",
+            "name:with-tag-selection"]
 
 
 def _f12(case, detail, info):
